@@ -449,6 +449,7 @@ _mk("vars", runner_projection(flow_view, with_slog=True), runner_features(0, 3, 
 _mk("faults", runner_projection(class_view), runner_features(1, 4), no_panic_oracle("faults"))
 _mk("snap", runner_projection(flow_view, with_slog=True), runner_features(1, 4))
 _mk("cmds", cmd_log_projection, runner_features(0, 4, need=["cmd"]))
+_mk("convcmds", cmd_log_projection, runner_features(0, 4, need=["cmd"]))
 _mk("visits", runner_projection(flow_view), runner_features(0, 5, need=["jump"]))
 
 PROPERTIES["C03"] = {
@@ -477,12 +478,17 @@ PROPERTIES["C07"] = {
     "assumptions": ["scripts of this family draw no random numbers (neither RNG nor host state is part of a snapshot)"],
 }
 PROPERTIES["C10"] = {
-    "families": [("cmds", 200, 4000)],
-    "rule": "scripts dense in host commands (raw handlers whose channel the harness owns) with a completion schedule per "
+    "families": [("cmds", 200, 4000), ("convcmds", 200, 4000)],
+    "rule": "cmds: scripts dense in host commands (raw handlers whose channel the harness owns) with a completion schedule per "
             "invocation: ready on return, or after 1-3 further polls, with nil or an error; <<wait 0.03/0.05>>; "
-            "unregistered commands; stop. Compared: Next outcomes and the handler invocation log (name, arguments). "
-            "Non-trivial: contains commands and >= 4 Next calls.",
-    "assumptions": ["the harness fills a handler's channel exactly between two Next calls (the schedule is imposed, not raced)"],
+            "unregistered commands; stop. convcmds: the same with the three shapes ConvertAndAddCommand accepts - "
+            "func(float64), func(float64) error (both run on a goroutine of the bridge and stay blocked until the schedule "
+            "releases them) and func(float64) <-chan error - plus snapshots and restores taken while a command is pending "
+            "(the abandoned handler is released) and re-execution of the same command afterwards. Compared: Next outcomes "
+            "and the handler invocation log (name, arguments). Non-trivial: contains commands and >= 4 Next calls.",
+    "assumptions": ["the harness fills a handler's channel / releases a blocked handler exactly between two Next calls (the schedule "
+                    "is imposed, not raced); for a goroutine-backed handler that is due, Next is polled until the bridge has "
+                    "reported (at most 2 s)"],
 }
 PROPERTIES["C11"] = {
     "families": [("visits", 260, 5000)],
@@ -856,6 +862,9 @@ def bridge_oracle(case, obs, exp):
                     return "violation", "call %d of the accepted function panicked in the bridge" % i
                 if tag(c[0]) == "hang":
                     return "violation", "call %d: the command's channel never delivered" % i
+                if tag(c[0]) == "overlap-mismatch":
+                    return "violation", ("calls %d and %d of the accepted command issued back to back: the handler received %s, "
+                                         "one after the other it received %s") % (c[0][1], c[0][1] + 1, str(c[0][3]), str(c[0][2]))
             if tag(case[2]) in ("nil", "nonfunc", "nilfunc"):
                 return "violation", "a %s value was accepted at registration" % tag(case[2])
     return "unknown", "no panic, but registration/conversion results differ from the model's"
@@ -883,7 +892,8 @@ PROPERTIES["C16"] = {
             "error}, 0-3 results over value kinds, error, a struct implementing error, channels of every direction/"
             "element/named-ness; plus nil, a non-function and a nil function value. Each accepted one is called with 2-6 "
             "argument lists (fitting ones, one short, one long, arbitrary). Compared: registration outcome, per call "
-            "value/error/panic and the arguments the probe received (kind, named-ness, value). Non-trivial: >= 1 parameter.",
+            "value/error/panic and the arguments the probe received (kind, named-ness, value); for commands, adjacent calls "
+            "are also issued back to back without waiting and must deliver the same argument lists. Non-trivial: >= 1 parameter.",
     "assumptions": ["narrowing float->int conversions outside the target range follow amd64 (CVTTSD2SQ/CVTTSD2SL)"],
 }
 
